@@ -253,6 +253,97 @@ fn displaced(rep: &mut Report, rng: &mut Rng, n: usize) {
     }
 }
 
+/// Database-level sequences with INDEX-BACKED reads: a keyed table inside a `Database`, staged
+/// inserts / removals / remove-everything / clear_table, and at random moments (not after every op,
+/// so cached indexes and subsets go stale in between) one-atom rules with an `EqConst` constraint and
+/// a two-atom join on the key, compared with a plain map.
+fn db_index_reads(rep: &mut Report, rng: &mut Rng, n: usize) {
+    use egglog_core_relations::{RuleSetBuilder, TableId};
+    use egglog_reports::ReportLevel;
+    use std::panic::{catch_unwind, AssertUnwindSafe};
+    const NV: usize = 3;
+    for case in 0..n {
+        let mut hist: Vec<String> = vec![];
+        let threads = if case % 4 == 3 { 4 } else { 1 };
+        let res = catch_unwind(AssertUnwindSafe(|| -> Option<String> {
+            let pool = if threads > 1 { Some(egglog_concurrency::threadpool::ThreadPool::new(threads)) } else { None };
+            let mut db = Database::default();
+            let mk = |db: &mut Database, keys: usize, cols: usize, sort: Option<u32>| -> TableId { db.add_table(SortedWritesTable::new(keys, cols, sort.map(ColumnId::new), vec![],
+                // an associative merge (max by value, ties keep the older row), so that the serial and the
+                // staged/parallel insertion paths are REQUIRED to agree (C05)
+                Box::new(|_, old, new, out| { if new[1] > old[1] { out.extend_from_slice(new); true } else { false } })), std::iter::empty(), std::iter::empty()) };
+            let table = mk(&mut db, 1, 3, Some(2));
+            let outs: Vec<TableId> = (0..NV).map(|_| db.add_table(SortedWritesTable::new(1, 1, None, vec![], Box::new(|_, _, _, _| false)), std::iter::empty(), std::iter::empty())).collect();
+            let joined = db.add_table(SortedWritesTable::new(2, 2, None, vec![], Box::new(|_, _, _, _| false)), std::iter::empty(), std::iter::empty());
+            let mut model: BTreeMap<u32, (u32, u32)> = BTreeMap::new();
+            let mut ts = 0u32;
+            let dom = [6u32, 14, 40][rng.below(3)];
+            let nops = 3 + rng.below(14);
+            for _ in 0..nops {
+                let mut run_in = |db: &mut Database, f: &mut dyn FnMut(&mut Database)| { match &pool { Some(p) => p.install(|| f(db)), None => f(db) } };
+                match rng.below(12) {
+                    0..=4 => { ts += 1; let k = 1 + rng.below(if dom > 20 { 30 } else { 8 }); let rows: Vec<(u32, u32)> = (0..k).map(|_| (rng.below(dom as usize) as u32, rng.below(NV) as u32)).collect();
+                        hist.push(format!("insert@{ts} {rows:?}"));
+                        { let mut buf = db.new_buffer(table); for (key, val) in &rows { buf.stage_insert(&[v(*key), v(*val), v(ts)]); match model.get(key) { Some((o, _)) if o >= val => {}, _ => { model.insert(*key, (*val, ts)); } } } }
+                        run_in(&mut db, &mut |db| { db.merge_all(); }); }
+                    5 | 6 => { let keys: Vec<u32> = (0..1 + rng.below(5)).map(|_| rng.below(dom as usize) as u32).collect(); hist.push(format!("remove {keys:?}"));
+                        { let mut buf = db.new_buffer(table); for k in &keys { buf.stage_remove(&[v(*k)]); model.remove(k); } }
+                        run_in(&mut db, &mut |db| { db.merge_all(); }); }
+                    7 => { let keys: Vec<u32> = model.keys().cloned().collect(); hist.push("remove-all".into());
+                        { let mut buf = db.new_buffer(table); for k in &keys { buf.stage_remove(&[v(*k)]); } } model.clear();
+                        run_in(&mut db, &mut |db| { db.merge_all(); }); }
+                    8 => { hist.push("clear_table".into()); db.clear_table(table); model.clear(); }
+                    _ => {
+                        hist.push("read".into());
+                        // direct reads
+                        let t = db.get_table(table);
+                        if t.len() != model.len() { return Some(format!("len {} vs map {}", t.len(), model.len())); }
+                        let mut scanned = BTreeMap::new();
+                        for (_, row) in t.scan(t.all().as_ref()).iter() { if scanned.insert(row[0].rep(), (row[1].rep(), row[2].rep())).is_some() { return Some("a key returned twice by a full scan".into()); } }
+                        if scanned != model { return Some(format!("full scan {scanned:?} vs map {model:?}")); }
+                        // index-backed reads
+                        for o in &outs { db.clear_table(*o); } db.clear_table(joined);
+                        let rules = {
+                            let mut rsb = RuleSetBuilder::new(&mut db);
+                            for (c, out) in outs.iter().enumerate() {
+                                let mut q = rsb.new_rule(); let k = q.new_var_named("k"); let val = q.new_var_named("val"); let t = q.new_var_named("t");
+                                q.add_atom(table, &[k.into(), val.into(), t.into()], &[Constraint::EqConst { col: ColumnId::new(1), val: v(c as u32) }]).unwrap();
+                                let mut rule = q.build(); rule.insert(*out, &[k.into()]).unwrap(); rule.build();
+                            }
+                            // join on the value column: table(k1, x, t1), table(k2, x, t2), k1 < ... all pairs with equal value
+                            let mut q = rsb.new_rule(); let k1 = q.new_var_named("k1"); let k2 = q.new_var_named("k2"); let x = q.new_var_named("x"); let t1 = q.new_var_named("t1"); let t2 = q.new_var_named("t2");
+                            q.add_atom(table, &[k1.into(), x.into(), t1.into()], &[]).unwrap();
+                            q.add_atom(table, &[k2.into(), x.into(), t2.into()], &[]).unwrap();
+                            let mut rule = q.build(); rule.insert(joined, &[k1.into(), k2.into()]).unwrap(); rule.build();
+                            rsb.build()
+                        };
+                        run_in(&mut db, &mut |db| { db.run_rule_set(&rules, ReportLevel::TimeOnly, None); });
+                        for (c, out) in outs.iter().enumerate() {
+                            let o = db.get_table(*out);
+                            let mut got: Vec<u32> = o.scan(o.all().as_ref()).iter().map(|(_, row)| row[0].rep()).collect(); got.sort();
+                            let want: Vec<u32> = model.iter().filter(|(_, (val, _))| *val as usize == c).map(|(k, _)| *k).collect();
+                            if got != want { return Some(format!("index-backed query val == {c} returns {got:?}, the map says {want:?}")); }
+                        }
+                        let j = db.get_table(joined);
+                        let mut got: Vec<(u32, u32)> = j.scan(j.all().as_ref()).iter().map(|(_, row)| (row[0].rep(), row[1].rep())).collect(); got.sort();
+                        let mut want: Vec<(u32, u32)> = vec![]; for (a, (va, _)) in &model { for (b, (vb, _)) in &model { if va == vb { want.push((*a, *b)); } } } want.sort();
+                        if got != want { return Some(format!("self-join on the value column returns {} pairs, the map says {}", got.len(), want.len())); }
+                    }
+                }
+            }
+            None
+        }));
+        rep.evaluations += 1;
+        rep.count("db_level_histories", 1);
+        if hist.iter().filter(|h| *h == "read").count() >= 2 && hist.iter().any(|h| h == "clear_table" || h == "remove-all") { rep.note_nontrivial(&hist); }
+        match res {
+            Ok(None) => {}
+            Ok(Some(f)) => rep.violate("property", "c16-index-read", format!("threads={threads}: {f}"), json!({"history": hist})),
+            Err(_) => rep.violate("property", "c16-index-read-panic", format!("threads={threads}: a read through the Database panicked (stale index / subset?)"), json!({"history": hist})),
+        }
+    }
+}
+
 pub fn run(ctx: &Ctx) -> Report {
     let mut rep = Report::new("C16", "random op sequences on SortedWritesTable (0-3 key columns, with/without sort column, merge functions overwrite/max/keep-old, staged removals + insertions per merge, clears, clones, batches large enough to cross the compaction threshold stale > max(16, n/2)), 1 thread and inside a 4-thread pool; non-trivial = the sequence compacted (major generation bump) or had a key collision (distinct by op list)");
     let mut rng = Rng::new(ctx.seed ^ 0xC16);
@@ -294,5 +385,6 @@ pub fn run(ctx: &Ctx) -> Report {
         if ci % 3 == 0 { constraint_probe(&mut rep, &mut rng, c); }
     }
     displaced(&mut rep, &mut rng, ctx.n(300, 6000));
+    db_index_reads(&mut rep, &mut rng, ctx.n(400, 8000));
     rep
 }
